@@ -63,7 +63,8 @@ struct Ctl {
     std::vector<Frame*> stack;
     long cancel_reads = 0;
     bool cancelled = false;
-    long tasks_run = 0, tasks_cancelled = 0, max_depth_seen = 0;
+    long tasks_run = 0, tasks_cancelled = 0, max_depth_seen = 0, spawns = 0;
+    void (*on_runaway)() = nullptr;   // a loop that keeps spawning without end
 };
 inline Ctl g;
 
@@ -115,6 +116,7 @@ inline void do_spawn(d1::task& t, d1::task_group_context& ctx, d1::slot_id aff) 
     Frame* cur = g.stack.empty() ? nullptr : g.stack.back();
     d1::slot_id orig = cur ? cur->exec : g.master;
     if (cur) cur->spawns++;
+    if (++g.spawns > 4000000) { if (g.on_runaway) g.on_runaway(); fprintf(stderr, "mock: more than 4000000 spawns in one loop\n"); _Exit(4); }
     if (g.on_spawn) g.on_spawn(cur, t);
     if (g.P > 1 && int(g.stack.size()) < g.max_nest && g.rng.pct(g.steal_at_spawn))
         run_task(t, ctx, other_slot(orig), orig, aff, false);
@@ -127,7 +129,7 @@ inline void reset(int P, uint64_t seed) {
     g.pending.clear(); g.stack.clear();
     g.P = P; g.rng.seed(seed);
     g.master = d1::slot_id(g.rng.below(unsigned(P)));
-    g.cancel_reads = 0; g.cancelled = false; g.tasks_run = g.tasks_cancelled = 0; g.max_depth_seen = 0;
+    g.cancel_reads = 0; g.cancelled = false; g.tasks_run = g.tasks_cancelled = 0; g.max_depth_seen = 0; g.spawns = 0;
 }
 } // namespace mock
 
